@@ -48,8 +48,11 @@ func genBase(r *Rng, prop string) *Scenario {
 	case "C11", "C16":
 		return genC11(r, prop)
 	case "C19":
-		if r.chance(0.4) {
+		switch r.IntN(10) {
+		case 0, 1, 2, 3:
 			return genC12Base(r)
+		case 4:
+			return genC19Validation(r)
 		}
 		return genC11(r, prop)
 	case "C12":
@@ -275,6 +278,19 @@ func genC06(r *Rng) *Scenario {
 			o.RawHex = hx(0xd0, 1, 0)
 		}
 		o.Class = "gray-lenient"
+	}
+	if r.chance(0.15) {
+		// the malformed packet arrives instead of the CONNACK
+		sc.Faults = append(sc.Faults, Fault{Kind: "connackNever", Conn: 1})
+		sc.Script = nil
+		var ops []Op
+		for _, op := range sc.Ops {
+			if op.Kind == "connect" || op.Kind == "handle" {
+				ops = append(ops, op)
+			}
+		}
+		sc.Ops = ops
+		o.AtUs = cfg.LatC2BUs + 30
 	}
 	sc.Script = append(sc.Script, o)
 	sc.HorizonUs = t + 20000
@@ -853,6 +869,49 @@ func genIDCycle(r *Rng, prop string) *Scenario {
 		sc.Ops = append(sc.Ops, Op{AtUs: t, Actor: 2, Kind: "unsubscribe", Topics: []string{"x"}})
 	}
 	sc.HorizonUs = t + 1000
+	sc.EndUs = sc.HorizonUs + 1000
+	return sc
+}
+
+// genC19Validation: errors that must be reported before anything is written:
+// calls before Connect, oversize payloads, QoS above 2.
+func genC19Validation(r *Rng) *Scenario {
+	sc := &Scenario{Cfg: baseCfg(r)}
+	cfg := &sc.Cfg
+	cfg.MaxPayloadLen = int(r.between(8, 64))
+	t := int64(0)
+	add := func(op Op) {
+		t += r.between(1, 50)
+		op.AtUs, op.Actor = t, 1+len(sc.Ops)
+		sc.Ops = append(sc.Ops, op)
+	}
+	// before Connect
+	for i := 0; i < int(r.between(1, 3)); i++ {
+		switch r.IntN(4) {
+		case 0:
+			add(Op{Kind: "publish", QoS: byte(r.IntN(3)), Topic: "a", Token: fmt.Sprintf("early%d", i)})
+		case 1:
+			add(Op{Kind: "subscribe", Subs: []SubReq{{"a", 1}}})
+		case 2:
+			add(Op{Kind: "unsubscribe", Topics: []string{"a"}})
+		case 3:
+			add(Op{Kind: "ping"})
+		}
+	}
+	t += 100
+	sc.Ops = append(sc.Ops, Op{AtUs: t, Actor: 0, Kind: "connect"})
+	t += rtt(cfg) + 50
+	for i := 0; i < int(r.between(1, 4)); i++ {
+		switch r.IntN(3) {
+		case 0: // payload over the configured maximum
+			add(Op{Kind: "publish", QoS: byte(r.IntN(3)), Topic: "a", Token: fmt.Sprintf("big%d", i), PayLen: cfg.MaxPayloadLen + int(r.between(1, 40))})
+		case 1: // a QoS the protocol cannot carry
+			add(Op{Kind: "publish", QoS: byte(r.between(3, 9)), Topic: "a", Token: fmt.Sprintf("q%d", i)})
+		case 2: // fine
+			add(Op{Kind: "publish", QoS: 0, Topic: "a", Token: fmt.Sprintf("ok%d", i), PayLen: int(r.between(0, int64(cfg.MaxPayloadLen)-2))})
+		}
+	}
+	sc.HorizonUs = t + 3000
 	sc.EndUs = sc.HorizonUs + 1000
 	return sc
 }
